@@ -200,8 +200,10 @@ class Ctl(object):
         self.gen_len = None     # overrides the n argument of generators
         self.bad_return = False # return an unserialisable value from `bad`
 
-    def hit(self, site):
+    def hit(self, site, method=None):
         mk = self.inject.get(site)
+        if mk is None and method is not None:
+            mk = self.inject.get('%s:%s' % (site, method))
         if mk is not None:
             raise mk()
 
@@ -296,6 +298,27 @@ class Universe(object):
         s_pat.build()
         M['strict'] = Method('strict', [('a', s_rng), ('s', s_pat)], s_int)
 
+        # a class with per-protocol attributes (prot_attrs): `hidden` is
+        # excluded from the output of every protocol
+        all_prots = [c for c, _ in PROTOCOLS.values()]
+        PA = type('PA', (ComplexModel,), {
+            '__namespace__': ns_p,
+            '_type_info': [
+                ('visible', Unicode),
+                ('hidden', Unicode(pa=dict((c, dict(exc=True))
+                                                    for c in all_prots))),
+                ('num', Integer),
+            ]})
+        self.PA = PA
+        # a small class tree returned through a (possibly) polymorphic protocol
+        Base = type('Base', (ComplexModel,), {'__namespace__': ns_inner,
+                    '_type_info': [('k', Integer), ('name', Unicode)]})
+        Derived = type('Derived', (Base,), {'__namespace__': ns_p,
+                    '_type_info': [('extra', Unicode)]})
+        self.Base, self.Derived = Base, Derived
+        M['pa'] = Method('pa', [('a', s_int)], None)
+        M['poly'] = Method('poly', [('a', s_int)], None)
+
         P = self.P.cls
         Inner = self.inner.cls
         pnames = [fn for fn, _ in self.P.all_fields()]
@@ -305,24 +328,24 @@ class Universe(object):
 
         def f_prims(ctx, *args):
             ctl.calls.append(('prims', 'enter'))
-            ctl.hit('fn')
+            ctl.hit('fn', 'prims')
             return _summ(*args)
 
         def f_echo(ctx, p):
             ctl.calls.append(('echo', 'enter'))
-            ctl.hit('fn')
+            ctl.hit('fn', 'echo')
             return p
 
         def f_inners(ctx, n, tag):
             ctl.calls.append(('inners', 'enter'))
-            ctl.hit('fn')
+            ctl.hit('fn', 'inners')
             return [Inner(k=i, s=u'%s%d' % (tag, i)) for i in range(_cap(n))]
 
         def f_gen(ctx, n, tag):
             # a plain function returning a generator: entry is observable
             # when spyne calls it, not when the body first runs
             ctl.calls.append(('gen', 'enter'))
-            ctl.hit('fn')
+            ctl.hit('fn', 'gen')
             m = ctl.gen_len if ctl.gen_len is not None else _cap(n)
 
             def _items():
@@ -336,34 +359,48 @@ class Universe(object):
 
         def f_multi(ctx, a):
             ctl.calls.append(('multi', 'enter'))
-            ctl.hit('fn')
+            ctl.hit('fn', 'multi')
             return _num(a) + 1, u'm%s' % (a,)
 
         def f_fail(ctx, a):
             ctl.calls.append(('fail', 'enter'))
-            ctl.hit('fn')
+            ctl.hit('fn', 'fail')
             return _num(a)
 
         def f_noargs(ctx):
             ctl.calls.append(('noargs', 'enter'))
-            ctl.hit('fn')
+            ctl.hit('fn', 'noargs')
             return u'nothing to see'
 
         def f_nothing(ctx, a):
             ctl.calls.append(('nothing', 'enter'))
-            ctl.hit('fn')
+            ctl.hit('fn', 'nothing')
 
         def f_bad(ctx, a):
             ctl.calls.append(('bad', 'enter'))
-            ctl.hit('fn')
+            ctl.hit('fn', 'bad')
             if ctl.bad_return:
                 return object()     # not an integer: serialisation fails
             return _num(a)
 
         def f_strict(ctx, a, s):
             ctl.calls.append(('strict', 'enter'))
-            ctl.hit('fn')
+            ctl.hit('fn', 'strict')
             return _num(a) + (len(s) if isinstance(s, str) else 0)
+
+        def f_pa(ctx, a):
+            ctl.calls.append(('pa', 'enter'))
+            ctl.hit('fn', 'pa')
+            return PA(visible=u'v%s' % (a,), hidden=u'h%s' % (a,),
+                                                              num=_num(a))
+
+        def f_poly(ctx, a):
+            ctl.calls.append(('poly', 'enter'))
+            ctl.hit('fn', 'poly')
+            if _num(a) % 2:
+                return Derived(k=_num(a), name=u'd%s' % (a,),
+                                                      extra=u'x%s' % (a,))
+            return Base(k=_num(a), name=u'b%s' % (a,))
 
         evmgr = self.method_evmgr
 
@@ -373,6 +410,8 @@ class Universe(object):
 
         ns = {}
         ns['strict'] = rpc(s_rng.cls, s_pat.cls, _returns=Integer)(f_strict)
+        ns['pa'] = rpc(Integer, _returns=PA)(f_pa)
+        ns['poly'] = rpc(Integer, _returns=Base)(f_poly)
         ns['prims'] = rpc(*[s.cls for _, s in flat_args], _returns=Unicode)(
                           _named(f_prims, [an for an, _ in flat_args]))
         ns['echo'] = rpc(P, _returns=P)(f_echo)
@@ -392,7 +431,7 @@ class Universe(object):
             # an inheriting service: must inherit Svc's listeners (C14)
             def f_sub(ctx, a):
                 ctl.calls.append(('sub', 'enter'))
-                ctl.hit('fn')
+                ctl.hit('fn', 'sub')
                 return _num(a) * 2
             self.sub_service = type('SubSvc', (self.service,),
                            {'sub': rpc(Integer, _returns=Integer)(f_sub)})
